@@ -153,7 +153,8 @@ Lemma window_new_spec : forall D fuel p hid low rp st h,
                  (exists cw p', findw h' w = Some cw /\ w_parent cw = Some p' /\ w_ref cw = 1 /\ w_closed cw = false /\
                     (if rp then exists ct, anc h p p' /\ findw h p' = Some ct /\ w_parent ct = None else p' = p)) /\
                  (forall a, a <> w -> (findw h' a = None <-> findw h a = None)) /\
-                 (forall q, findq h' q = findq h q) /\ r_queue (rx h') = r_queue (rx h)).
+                 (forall q, findq h' q = findq h q) /\ r_queue (rx h') = r_queue (rx h) /\
+                 nextw h' = Pos.succ (nextw h)).
 Proof.
   intros D fuel p hid low rp st h HI Hlp h0 E. subst h0. unfold window_new.
   (* the parent *)
@@ -362,7 +363,8 @@ Proof.
      (exists cw p'0, findw h' w = Some cw /\ w_parent cw = Some p'0 /\ w_ref cw = 1 /\ w_closed cw = false /\
         (if rp then exists ct, anc h p p'0 /\ findw h p'0 = Some ct /\ w_parent ct = None else p'0 = p)) /\
      (forall a, a <> w -> (findw h' a = None <-> findw h a = None)) /\
-     (forall q, findq h' q = findq h q) /\ r_queue (rx h') = r_queue (rx h)).
+     (forall q, findq h' q = findq h q) /\ r_queue (rx h') = r_queue (rx h) /\
+     nextw h' = Pos.succ (nextw h)).
   { intros h' R. pose proof (rx_only_findw h5 h') as Fw'. destruct R as [Rw [Rq [Rqu [Rd [Rnw Rnq]]]]].
     assert (R : rx_only h5 h') by (repeat split; auto).
     split; [eapply hinv_rx_only; eauto|]. split; [reflexivity|]. split.
@@ -371,7 +373,8 @@ Proof.
       + rewrite Rnw, NW5. lia.
     - split; [exists c5, p'; rewrite (Fw' w R); repeat split; auto|].
       split; [intros a Ha; rewrite (Fw' a R); apply Hdom5; exact Ha|].
-      split; [intro q; unfold findq; rewrite Rq, Q5; reflexivity|]. rewrite Rqu, R5. reflexivity. }
+      split; [intro q; unfold findq; rewrite Rq, Q5; reflexivity|]. split; [rewrite Rqu, R5; reflexivity|].
+      rewrite Rnw. exact NW5. }
   destruct (w_visible c5).
   - assert (Hlp5 : findw h5 p' <> None).
     { destruct (Hold5 p' cp Hp) as [c' [H1 _]]. congruence. }
